@@ -3,6 +3,7 @@
 //!   wvh run <Cxx> --seed S --tier T --out DIR [--corpus DIR]
 mod common;
 mod consts;
+mod fsop;
 mod consts_more;
 mod c03;
 mod c04;
@@ -30,6 +31,7 @@ fn main() {
     }
     match args[1].as_str() {
         "dump-consts" => consts::dump(),
+        "fsop" => std::process::exit(fsop::main(&args[2..])),
         "run" => {
             let prop = args.get(2).cloned().unwrap_or_default();
             let mut seed = 1u64;
